@@ -47,7 +47,7 @@ const (
 	timeLimit = 5 * time.Second
 	// a Compile that has not returned after wallFactor*timeLimit of wall-clock
 	// time (the machine is shared) is reported as not terminating
-	wallFactor = 4
+	wallFactor = 6
 )
 
 var kindNames = map[parser.Kind]string{
@@ -885,7 +885,7 @@ func main() {
 	out.Extra["compile_inputs"] = len(lins) + len(cins)
 	out.Extra["compile_inputs_accepted"] = accepted
 	out.Extra["slowest_input_le_64KiB"] = fmt.Sprintf("%s: %v", worstWhat, worst)
-	out.Extra["time_limit"] = "5s of CPU time per Compile for every input of at most 64 KiB (killed and reported after 20s wall clock); each input compiled twice in a child process"
+	out.Extra["time_limit"] = "5s of CPU time per Compile for every input of at most 64 KiB (killed and reported after 30s wall clock); each input compiled twice in a child process"
 
 	out.Flush("lexer cases: example programs, generated programs, byte-mutated programs, token soup (incl. invalid UTF-8, U+2424, unterminated strings/regexes, control characters), random bytes, each lexed by the real Lexer under a recorded InRegex policy; non-trivial when the token list has >= 4 tokens of >= 3 kinds. Every input and the large/nested inputs in extra.compile_inputs also went through compiler.Compile twice under the result-shape, panic, time and determinism oracle", false)
 }
